@@ -12,7 +12,9 @@
 (* and as a copy.  The conversion actions move between representations;    *)
 (* every conversion must carry the SAME value (ValuePreserved), a copy     *)
 (* must not share storage with its source (MutateCopy writes into the copy  *)
-(* and the source is read again), and header-plus-data JSON whose version  *)
+(* and the source is read again), a dictionary handed out by to_dict() is  *)
+(* private to the caller (EditDict edits it in place and the message is    *)
+(* converted again), and header-plus-data JSON whose version               *)
 (* hash is non-zero and different from the local definition must be        *)
 (* refused (VersionRefused) -- and only that one.                          *)
 (*                                                                         *)
@@ -85,9 +87,19 @@ AMutateCopy ==
   /\ src' = "none" /\ hist' = Log("MutateCopy", "-")
   /\ UNCHANGED <<kind, vcl, rep, vc>>
 
+(* the caller edits a dictionary it got from to_dict() in place (data_logger/cli.py does; so does the "take a template,
+   fill it in" idiom) and then goes back to the untouched message: a result is private to the caller, so every later
+   conversion of the message still carries v.  Shares = TRUE is the variant in which results share storage. *)
+AEditDict ==
+  /\ rep = "dict" /\ rep' = "obj"
+  /\ cur' = IF Shares THEN "w" ELSE cur
+  /\ hist' = Log("EditDict", "-")
+  /\ UNCHANGED <<kind, vcl, src, vc>>
+
 Next ==
   /\ Len(hist) < MaxPath /\ rep # "refused"
   /\ \/ AToBytes \/ AFromBytes \/ AToDict \/ AFromDict \/ AFromJson \/ ADictToJson \/ AJsonToDict \/ AMsgFromJson \/ AMutateCopy
+     \/ AEditDict
      \/ \E m \in {"pretty", "minify"} : AToJson(m)
      \/ \E v \in VersionClasses : AMsgToJson(v)
      \/ \E a \in {"Copy", "MsgCopy"} : ACopy(a)
@@ -117,7 +129,7 @@ StepClauses(a, spec_rep, o) ==
   IF o = "skipped" THEN {}
   ELSE IF spec_rep = "refused" THEN (IF o = "refused" THEN {} ELSE {"C10.VersionNotRefused"})
   ELSE IF o = "refused" THEN {"C10.VersionWronglyRefused"}
-  ELSE IF o = "shares" THEN {"C10.CopyShares"}
+  ELSE IF o = "shares" THEN {IF a = "EditDict" THEN "C10.ResultShared" ELSE "C10.CopyShares"}
   ELSE IF o \in {"differs", "raised"} THEN {"C10.RoundTripDiffers"}
   ELSE {}
 =============================================================================
